@@ -4,7 +4,7 @@
     which the integrand was called).  [val], [wrn], [trc] are the three projections. *)
 From Coq Require Import Reals ZArith List Lra Bool Arith.
 From Coquelicot Require Import Coquelicot.
-From LP Require Import Num NumR C03_Model C03_Proofs C03_Proofs_Remainder C03_Proofs_Seq C03_Proofs_More C03_Proofs_Arith C03_Proofs_Bound.
+From LP Require Import Num NumR C03_Model C03_Proofs C03_Proofs_Remainder C03_Proofs_Seq C03_Proofs_More C03_Proofs_Arith C03_Proofs_Bound C03_Proofs_Post.
 Import ListNotations.
 Local Open Scope R_scope.
 
@@ -241,6 +241,146 @@ Theorem C03_error_bound_after_any_history (pre post : list (call (T := R))) (f f
             (wrn r = false -> Rabs (val r - RInt f a b) <= 4 * Rabs eps).
 Proof. exact (error_bound_after_any_history pre post f f1 f2 f3 f4 lo' hi' a b eps m sg depth). Qed.
 Print Assumptions C03_error_bound_after_any_history.
+
+(** * The error clause when the non-convergence warning IS raised, and how deep is deep enough (coq/C03_Proofs_Post.v).
+    "the absolute error is at most four times epsilon plus rounding" cannot hold as such when a panel is forced by the depth
+    limit; what holds for EVERY depth and epsilon, warning or not, under the same regularity premises as C03_error_bound
+    (four derivatives on an open interval containing the range, sg * f4 in [m, 4m] on the range), is
+        |value - integral| <= 4 |eps| + |b-a|^5 m / (14400 * 16^depth):
+    accepted panels contribute at most 4 |eps| in total, every forced panel (width |b-a|/2^depth) at most width^5 m / 14400.
+    With eps = 0 this is the convergence rate of the rule in the depth. *)
+Theorem C03_error_bound_any_depth (f f1 f2 f3 f4 : R -> R) (lo' hi' a b m sg eps : R) (depth : Z) :
+  lo' < Rmin a b -> Rmax a b < hi' ->
+  (forall x, lo' < x < hi' -> is_derive f x (f1 x)) ->
+  (forall x, lo' < x < hi' -> is_derive f1 x (f2 x)) ->
+  (forall x, lo' < x < hi' -> is_derive f2 x (f3 x)) ->
+  (forall x, lo' < x < hi' -> is_derive f3 x (f4 x)) ->
+  sg = 1 \/ sg = -1 -> 0 < m ->
+  (forall x, Rmin a b <= x <= Rmax a b -> m <= sg * f4 x <= 4 * m) ->
+  Rabs (val (integrate ROps f a b eps depth) - RInt f a b)
+  <= 4 * Rabs eps + (Rmax a b - Rmin a b) ^ 5 * m / (14400 * 16 ^ Z.to_nat depth).
+Proof. exact (fun H1 H2 H3 H4 H5 H6 H7 H8 H9 => error_bound_any_depth f f1 f2 f3 f4 lo' hi' a b m sg H1 H2 H3 H4 H5 H6 H7 H8 H9 eps depth). Qed.
+Print Assumptions C03_error_bound_any_depth.
+
+(** non-vacuity, in the case C03_error_bound does not cover: x^4 on [0,1] with depth 0 and epsilon 0 raises the warning
+    (the only panel is forced), and the bound 24 / 14400 holds *)
+Example C03_error_bound_any_depth_with_warning :
+  wrn (integrate ROps (fun x => x ^ 4) 0 1 0 0) = true /\
+  Rabs (val (integrate ROps (fun x => x ^ 4) 0 1 0 0) - RInt (fun x => x ^ 4) 0 1)
+  <= 4 * Rabs 0 + (Rmax 0 1 - Rmin 0 1) ^ 5 * 24 / (14400 * 16 ^ Z.to_nat 0).
+Proof. exact error_bound_any_depth_x4. Qed.
+
+(** The error clause read literally - "for every integrand whose fourth derivative keeps one sign and varies by at most a factor
+    four over the interval the absolute error is at most four times epsilon", with no proviso about the warning - is FALSE of the
+    rule as coded: x^6 on [1,2] (fourth derivative 360 x^2 in [360, 1440]), epsilon 1e-6, depth 0 satisfies every premise of
+    C03_error_bound except the absence of the warning, and the error is 1/2688 > 4e-6.  Replayed on the library:
+    Integrate(x^6,1,2,1e-6,0) = 18.143229166666664 (integral 18.142857...), with the non-convergence warning on stdout.  This is why
+    C03_error_bound carries the hypothesis [wrn = false] and why C03_error_bound_any_depth has the additional term. *)
+Theorem C03_error_bound_without_warning_refuted :
+  exists (f f1 f2 f3 f4 : R -> R) (lo' hi' a b eps m sg : R) (depth : Z),
+    lo' < Rmin a b /\ Rmax a b < hi' /\
+    (forall x, lo' < x < hi' -> is_derive f x (f1 x)) /\
+    (forall x, lo' < x < hi' -> is_derive f1 x (f2 x)) /\
+    (forall x, lo' < x < hi' -> is_derive f2 x (f3 x)) /\
+    (forall x, lo' < x < hi' -> is_derive f3 x (f4 x)) /\
+    (sg = 1 \/ sg = -1) /\ 0 < m /\
+    (forall x, Rmin a b <= x <= Rmax a b -> m <= sg * f4 x <= 4 * m) /\
+    wrn (integrate ROps f a b eps depth) = true /\
+    ~ Rabs (val (integrate ROps f a b eps depth) - RInt f a b) <= 4 * Rabs eps.
+Proof. exact error_bound_without_warning_refuted. Qed.
+Print Assumptions C03_error_bound_without_warning_refuted.
+
+(** A depth that is deep enough: when |b-a|^5 m <= 10800 |eps| 16^depth no panel can be forced with a failing test, so no
+    warning is raised and the 4 |eps| bound of the property holds unconditionally (every discrepancy |S2 - S| of a panel of
+    width w is at most w^5 m / 720). *)
+Theorem C03_sufficient_depth_no_warning (f f1 f2 f3 f4 : R -> R) (lo' hi' a b m sg eps : R) (depth : Z) :
+  lo' < Rmin a b -> Rmax a b < hi' ->
+  (forall x, lo' < x < hi' -> is_derive f x (f1 x)) ->
+  (forall x, lo' < x < hi' -> is_derive f1 x (f2 x)) ->
+  (forall x, lo' < x < hi' -> is_derive f2 x (f3 x)) ->
+  (forall x, lo' < x < hi' -> is_derive f3 x (f4 x)) ->
+  sg = 1 \/ sg = -1 -> 0 < m ->
+  (forall x, Rmin a b <= x <= Rmax a b -> m <= sg * f4 x <= 4 * m) ->
+  (Rmax a b - Rmin a b) ^ 5 * m <= 10800 * Rabs eps * 16 ^ Z.to_nat depth ->
+  wrn (integrate ROps f a b eps depth) = false /\
+  Rabs (val (integrate ROps f a b eps depth) - RInt f a b) <= 4 * Rabs eps.
+Proof. exact (fun H1 H2 H3 H4 H5 H6 H7 H8 H9 => sufficient_depth f f1 f2 f3 f4 lo' hi' a b m sg H1 H2 H3 H4 H5 H6 H7 H8 H9 eps depth). Qed.
+Print Assumptions C03_sufficient_depth_no_warning.
+
+Example C03_sufficient_depth_premises :
+  wrn (integrate ROps (fun x => x ^ 4) 0 1 (1 / 100) 0) = false /\
+  Rabs (val (integrate ROps (fun x => x ^ 4) 0 1 (1 / 100) 0) - RInt (fun x => x ^ 4) 0 1) <= 4 * Rabs (1 / 100).
+Proof. exact sufficient_depth_x4. Qed.
+
+(** Where the "factor four" and the "four times epsilon" meet: for a fourth derivative of one sign that varies by at most a
+    factor r over the interval, 1 <= r < 16, and no warning, the error is at most 16 (r-1)/(16-r) |eps|.  r = 4 is the clause of the
+    property (C03_error_bound), r = 1 says that integrands with constant fourth derivative are integrated exactly by accepted panels. *)
+Theorem C03_error_bound_general_ratio (f f1 f2 f3 f4 : R -> R) (lo' hi' a b eps m r sg : R) (depth : Z) :
+  lo' < Rmin a b -> Rmax a b < hi' ->
+  (forall x, lo' < x < hi' -> is_derive f x (f1 x)) ->
+  (forall x, lo' < x < hi' -> is_derive f1 x (f2 x)) ->
+  (forall x, lo' < x < hi' -> is_derive f2 x (f3 x)) ->
+  (forall x, lo' < x < hi' -> is_derive f3 x (f4 x)) ->
+  sg = 1 \/ sg = -1 -> 0 < m -> 1 <= r < 16 ->
+  (forall x, Rmin a b <= x <= Rmax a b -> m <= sg * f4 x <= r * m) ->
+  wrn (integrate ROps f a b eps depth) = false ->
+  Rabs (val (integrate ROps f a b eps depth) - RInt f a b) <= 16 * (r - 1) / (16 - r) * Rabs eps.
+Proof. exact (error_bound_ratio f f1 f2 f3 f4 lo' hi' a b eps m r sg depth). Qed.
+Print Assumptions C03_error_bound_general_ratio.
+
+Example C03_error_bound_general_ratio_premises :
+  Rabs (val (integrate ROps (fun x => x ^ 4) 0 1 (1 / 100) 0) - RInt (fun x => x ^ 4) 0 1) <= 16 * (1 - 1) / (16 - 1) * Rabs (1 / 100).
+Proof. exact error_bound_ratio_x4. Qed.
+
+(** An a-posteriori form, again with or without warning: the error is at most 4/15 of the sum of the discrepancies |S2 - S|
+    ([disc]) of the panels on which the recursion stops ([panels], the partition of C03_integrate_is_composite_rule). *)
+Theorem C03_error_bound_posterior (f f1 f2 f3 f4 : R -> R) (lo' hi' a b m sg eps : R) (depth : Z) :
+  lo' < Rmin a b -> Rmax a b < hi' ->
+  (forall x, lo' < x < hi' -> is_derive f x (f1 x)) ->
+  (forall x, lo' < x < hi' -> is_derive f1 x (f2 x)) ->
+  (forall x, lo' < x < hi' -> is_derive f2 x (f3 x)) ->
+  (forall x, lo' < x < hi' -> is_derive f3 x (f4 x)) ->
+  sg = 1 \/ sg = -1 -> 0 < m ->
+  (forall x, Rmin a b <= x <= Rmax a b -> m <= sg * f4 x <= 4 * m) ->
+  Rabs (val (integrate ROps f a b eps depth) - RInt f a b)
+  <= 4 / 15 * sumR (List.map (disc f) (panels f (Z.to_nat depth) (Rmin a b) (Rmax a b) (Rabs eps))).
+Proof. exact (fun H1 H2 H3 H4 H5 H6 H7 H8 H9 => error_bound_posterior f f1 f2 f3 f4 lo' hi' a b m sg H1 H2 H3 H4 H5 H6 H7 H8 H9 eps depth). Qed.
+Print Assumptions C03_error_bound_posterior.
+
+(** "stdout non-convergence warning" (observe_at): for every integrand and distinct limits the warning is raised exactly when
+    the list [forced_fail] is not empty: the panels of the composite rule of width |b-a|/2^depth, reached with the depth
+    exhausted, whose discrepancy exceeds 15 times the tolerance |eps|/2^depth in force there. *)
+Theorem C03_warning_iff_forced_failure (f : R -> R) (a b eps : R) (depth : Z) :
+  a <> b ->
+  let lo := Rmin a b in let hi := Rmax a b in
+  let ff := forced_fail f (Z.to_nat depth) lo hi (Rabs eps) in
+  (wrn (integrate ROps f a b eps depth) = true <-> ff <> []) /\
+  List.Forall (fun q => let '(u, v, e) := q in
+                   v - u = (hi - lo) / 2 ^ Z.to_nat depth /\ e = Rabs eps / 2 ^ Z.to_nat depth /\
+                   List.In (u, v) (panels f (Z.to_nat depth) lo hi (Rabs eps)) /\
+                   15 * e < Rabs (S2of f u v - simp f u v)) ff.
+Proof. exact (warning_iff_forced_failure f a b eps depth). Qed.
+Print Assumptions C03_warning_iff_forced_failure.
+
+Example C03_forced_failure_nonempty : forced_fail (fun x => x ^ 4) 0 0 1 0 = [(0, 1, 0)].
+Proof. exact forced_fail_x4. Qed.
+
+(** "wrong reuse of fa/fb/fc in the recursion" (mechanism): for every integrand, epsilon, depth and pair of limits no abscissa
+    is evaluated twice - the end and mid values handed down are the only reuse, and nothing is re-evaluated. *)
+Theorem C03_eval_points_distinct (f : R -> R) (a b eps : R) (depth : Z) :
+  List.NoDup (trc (integrate ROps f a b eps depth)).
+Proof. exact (eval_points_distinct f a b eps depth). Qed.
+Print Assumptions C03_eval_points_distinct.
+
+(** Find_Epsilon(f,a,b,precision) (the tolerance of the string overload): precision times the integral for every polynomial
+    of degree three or less, and antisymmetric in the limits for every integrand. *)
+Theorem C03_find_epsilon (c0 c1 c2 c3 a b p : R) (f : R -> R) :
+  find_epsilon ROps (fun x => c0 + c1 * x + c2 * x ^ 2 + c3 * x ^ 3) a b p
+  = p * RInt (fun x => c0 + c1 * x + c2 * x ^ 2 + c3 * x ^ 3) a b /\
+  find_epsilon ROps f b a p = - find_epsilon ROps f a b p.
+Proof. exact (conj (find_epsilon_cubic c0 c1 c2 c3 a b p) (find_epsilon_swap f a b p)). Qed.
+Print Assumptions C03_find_epsilon.
+
 
 (** * Clauses that hold in EVERY arithmetic (C03_Proofs_Arith.v).
     The theorems above are about exact real arithmetic, where an integrand value is always a finite number.  The
